@@ -62,9 +62,9 @@ func c15GenNQDoc(r *hx.Rand, nq bool) []byte {
 			}
 		}
 		ln = strings.Replace(ln, " ", hx.Pick(r, []string{" ", "\t", "  "}), 1)
-		sb.WriteString(ln + hx.Pick(r, []string{" .", ".", " . # trailing", "\t.", " # before the dot\n.", "#c\r\n ."}))
+		sb.WriteString(ln + hx.Pick(r, []string{" .", ".", " . # trailing", "\t.", " # before the dot\n.", "#c\r\n .", "# cr ends a comment\r."}))
 		if i < len(lines)-1 || r.Chance(2, 3) {
-			sb.WriteString(hx.Pick(r, []string{"\n", "\n", "\r\n", "\n\n"}))
+			sb.WriteString(hx.Pick(r, []string{"\n", "\n", "\r\n", "\n\n", "\r", "\r\r\n"}))
 		}
 	}
 	return []byte(sb.String())
